@@ -194,7 +194,7 @@ pub fn worker(def: &PropDef, cli: &Cli) -> i32 {
                 let raw_class = format!("{clause}|{}", signature(def, &wl, &res).join(","));
                 line["violation_raw"] = json!({"clause": clause, "detail": detail, "class": raw_class});
                 // every raw violation class is minimised and classified, up to 40 per worker process
-                let budget_ok = minimised_f + minimised < 40;
+                let budget_ok = minimised_f + minimised < cli.get_usize("minimise", 40);
                 if budget_ok && reported.insert(raw_class) {
                     if opts.gate_first { minimised_f += 1 } else { minimised += 1 }
                     // runs that compile the real standard library (seconds each, twice with a reference server) are
@@ -319,7 +319,8 @@ pub fn coordinator(def: &PropDef, cli: &Cli) -> i32 {
     }
     // ---- the batch
     let per = runs.div_ceil(w);
-    let children: Vec<_> = (0..w).map(|k| spawn_worker(def, cli, k, w, per, wall, &base, &[])).collect();
+    let min_cap = cli.get_usize("minimise", 40).to_string();
+    let children: Vec<_> = (0..w).map(|k| spawn_worker(def, cli, k, w, per, wall, &base, &["--minimise", &min_cap])).collect();
     let lines = collect(children);
     let mut report = Report::new(def.id);
     let mut hashes = BTreeSet::new();
